@@ -559,6 +559,18 @@ func oracle[E elem](sc *scenario[E], o *runObs[E]) []verdict {
 			}
 		}
 	}
+	// never more goroutines per distance than GOMAXPROCS / maxConcurrency allow
+	workers := map[int]int{}
+	for _, r := range o.recs {
+		if r.n > 0 && len(r.first) > 0 {
+			workers[len(r.first)]++
+		}
+	}
+	for d, n := range workers {
+		if n > o.rc.gomax || (o.rc.maxConc > 0 && uint(n) > o.rc.maxConc) {
+			add(fmt.Sprintf("%d workers offered candidates at distance %d with GOMAXPROCS=%d, maxConcurrency=%d", n, d, o.rc.gomax, o.rc.maxConc), siteRun+" (concurrencyFactor)")
+		}
+	}
 	if dup != "" {
 		add("a candidate was offered to checkFunc more than once ("+dup+")", siteRun+" (partition into worker slices)")
 	}
@@ -1071,6 +1083,12 @@ func main() {
 			}
 		}
 	}
+	// an initFunc error in a round in which other workers find a result: the error wins
+	multi[bool](c, 51, 3, 3, runCfg{gomax: 4}, "first-of-all", []runCfg{{gomax: 4, initMode: 2, initN: 1}}, "multi-bools")
+	multi[byte](c, 4, 4, 4, runCfg{gomax: 3, jitter: 1}, "many", []runCfg{{gomax: 3, initMode: 2, initN: 2}, {gomax: 2, initMode: 2, initN: 0}}, "multi-bytes")
+	multi[bool](c, 29, 3, 4, runCfg{gomax: 2}, "lower-too", []runCfg{{gomax: 2, initMode: 2, initN: 1}, {gomax: 2, initMode: 2, initN: 2}}, "multi-bools")
+	// 16 workers, the only satisfying values at the last ID of every slice
+	multi[bool](c, 46, 4, 4, runCfg{gomax: 16, jitter: 1}, "last-of-all", nil, "multi-bools")
 	// ---- F4: 64 items, distance 4: up to 63 workers ----
 	for _, g := range []int{64, 61, 16} {
 		multi[bool](c, 64, 4, 4, runCfg{gomax: g}, "first-of-all", []runCfg{{gomax: g, maxConc: 5}}, "wide-bools")
